@@ -166,7 +166,78 @@ pub fn plain(kind: u64) -> Vec<u64> {
     out
 }
 
+static ZDROPS: std::sync::atomic::AtomicU64 = std::sync::atomic::AtomicU64::new(0);
+/// a ZERO-SIZED value with a destructor (a token / guard type): its drops are counted
+pub struct ZTok;
+impl Drop for ZTok {
+    fn drop(&mut self) {
+        ZDROPS.fetch_add(1, std::sync::atomic::Ordering::SeqCst);
+    }
+}
+
+/// `[48 + j, 0, 0]`: zero-sized headers / payloads with drop glue through the constructors.
+/// observation `[status, SEP, SEP, ZST drops during construction, ZST drops after everything is released,
+///               element destructors, bad accesses or releases]`
+pub fn zst(kind: u64) -> Vec<u64> {
+    use std::sync::atomic::Ordering::SeqCst;
+    assert_eq!(std::mem::size_of::<ZTok>(), 0);
+    tok::reset();
+    let _ = talloc::drain();
+    ZDROPS.store(0, SeqCst);
+    talloc::record(true);
+    let mut during = 0;
+    let r = catch_unwind(AssertUnwindSafe(|| match kind {
+        0 => {
+            let mut u = UniqueArc::<HeaderSlice<ZTok, [MaybeUninit<Tok>]>>::from_header_and_uninit_slice(ZTok, 2);
+            during = ZDROPS.load(SeqCst);
+            u.slice[0].write(Tok::new());
+            drop(u);
+        }
+        1 => {
+            let mut u = UniqueArc::<HeaderSlice<ZTok, [MaybeUninit<Tok>]>>::from_header_and_uninit_slice(ZTok, 2);
+            during = ZDROPS.load(SeqCst);
+            for s in u.slice.iter_mut() {
+                s.write(Tok::new());
+            }
+            let a = unsafe { u.assume_init_slice_with_header() }.shareable();
+            let b = a.clone();
+            drop(a);
+            drop(b);
+        }
+        2 => {
+            let a = Arc::from_header_and_iter(ZTok, vec![Tok::new(), Tok::new()].into_iter());
+            during = ZDROPS.load(SeqCst);
+            drop(a);
+        }
+        3 => {
+            let a = Arc::from_header_and_vec(ZTok, vec![Tok::new(), Tok::new()]);
+            during = ZDROPS.load(SeqCst);
+            drop(a);
+        }
+        4 => {
+            let a: Arc<ZTok> = Arc::from(Box::new(ZTok));
+            during = ZDROPS.load(SeqCst);
+            drop(a);
+        }
+        _ => {
+            let a = Arc::new(ZTok);
+            during = ZDROPS.load(SeqCst);
+            let b = a.clone();
+            drop(a);
+            drop(b);
+        }
+    }));
+    talloc::record(false);
+    let evs = talloc::drain();
+    let bad = evs.iter().filter(|e| matches!(e, Ev::BadDtor { .. } | Ev::BadRead { .. } | Ev::BadDealloc { .. } | Ev::UnknownDealloc { .. })).count() as u64;
+    let dt = evs.iter().filter(|e| matches!(e, Ev::Dtor { .. })).count() as u64;
+    vec![r.is_err() as u64, SEP, SEP, during, ZDROPS.load(SeqCst), dt, bad]
+}
+
 pub fn run1(kind: u64, n: usize, k: u64) -> Vec<u64> {
+    if kind >= 28 {
+        return if kind < 34 && n == 0 && k == 0 { zst(kind - 28) } else { vec![98] };
+    }
     if kind >= 24 {
         return if kind < 28 && n == 0 && k == 0 { plain(kind - 24) } else { vec![98] };
     }
